@@ -35,6 +35,9 @@ type runner struct {
 	last  syncfx.Obs
 	kinds map[string]int
 	trust uint64
+
+	cancelAt int // the next delivery's validation context ends right after this many GetByHeight answers (0 = never)
+	headWho  int // learner number of the Head() call parked in the getter's Head (valid while f.Getter.HeadParked())
 }
 
 func (r *runner) rec(act string, ret int, kind string) {
@@ -65,10 +68,17 @@ func (r *runner) loopParked() bool {
 }
 
 // shadow of verifyBifurcating: which heads the real header.Verify lets it promote, and its verdict
-func (r *runner) shadowBif(subj, newHead H) (promoted []H, ok bool) {
+func (r *runner) shadowBif(subj, newHead H, cancelAt int) (promoted []H, ok bool) {
 	subjHeight := subj.Height()
 	diff := newHead.Height() - subjHeight
+	cancelled := false
 	for i := 0; i < 10000; i++ {
+		if cancelled {
+			return promoted, false // the getter refuses the request of an ended context
+		}
+		if i+1 == cancelAt {
+			cancelled = true
+		}
 		cand, found := r.f.Getter.ByHeight[subjHeight+diff/2]
 		if !found {
 			return promoted, false
@@ -101,11 +111,13 @@ func (r *runner) deliver(h H, kind string) {
 	}
 	now := time.Now().UnixNano()
 	bif := "(Bif [] false)"
+	cancelAt := r.cancelAt
+	r.cancelAt = 0
 	if subj := r.last.LocalHdr; subj != nil {
 		if err := header.Verify(subj, h); err != nil {
 			var ve *header.VerifyError
 			if errors.As(err, &ve) && ve.SoftFailure {
-				pr, ok := r.shadowBif(subj, h)
+				pr, ok := r.shadowBif(subj, h, cancelAt)
 				n := len(pr)
 				if ok {
 					n++
@@ -121,11 +133,11 @@ func (r *runner) deliver(h H, kind string) {
 					terms[i] = r.f.Reg.Term(p)
 				}
 				bif = fmt.Sprintf("(Bif %s %s)", emit.List(terms), emit.B(ok))
-				r.w.Count("bifurcation", fmt.Sprintf("promoted%d/%v", len(pr), ok))
+				r.w.Count("bifurcation", fmt.Sprintf("promoted%d/%v/cancel%d", len(pr), ok, cancelAt))
 			}
 		}
 	}
-	i := r.f.Deliver(h)
+	i := r.f.DeliverCancel(h, cancelAt)
 	ret := r.f.Results[i]
 	if ret == 0 {
 		ret = 3
@@ -135,11 +147,31 @@ func (r *runner) deliver(h H, kind string) {
 }
 
 func (r *runner) headLearn(h H) {
-	if h == nil || r.learnerParked() {
+	// (Head() calls are single-flight: one made while another's request is parked would just wait for that answer)
+	if h == nil || r.learnerParked() || r.f.Getter.HeadParked() {
 		return
 	}
 	r.f.HeadCall(h)
 	r.rec(fmt.Sprintf("(DHead (Some %s))", r.f.Reg.Term(h)), 0, "head_learn")
+}
+
+// a Head() call whose network head request is slow: Head() has captured its subjective head, the answer h
+// arrives when the driver releases it
+func (r *runner) headLearnParked(h H, kind string) {
+	if h == nil || r.learnerParked() || r.f.Getter.HeadParked() {
+		return
+	}
+	r.headWho = r.f.HeadCallP(h)
+	r.rec(fmt.Sprintf("(DHeadP (Some %s))", r.f.Reg.Term(h)), 0, "head_slow_"+kind)
+}
+
+func (r *runner) releaseHead() bool {
+	// a verifier call parked in the gated Append holds incomingMu, which Head() takes after the answer
+	if r.learnerParked() || !r.f.ReleaseHead() {
+		return false
+	}
+	r.rec(fmt.Sprintf("(DRelT %d)", r.headWho), 0, "head_slow_answered")
+	return true
 }
 
 func (r *runner) answerPrefix(k int) bool {
@@ -244,6 +276,9 @@ func (r *runner) releaseAny(rng *emit.Rand) bool {
 func (r *runner) finish(rng *emit.Rand) {
 	for i := 0; i < 600; i++ {
 		if r.releaseAny(rng) {
+			continue
+		}
+		if r.releaseHead() {
 			continue
 		}
 		if r.f.Getter.Outstanding() != nil {
@@ -400,6 +435,9 @@ func randomScript(maxActs int) func(r *runner, rng *emit.Rand) {
 			parked := len(r.f.Store.Parked()) > 0
 			req := r.f.Getter.Outstanding()
 			c := rng.Intn(100)
+			if r.f.Getter.HeadParked() && rng.Chance(30) && r.releaseHead() {
+				continue
+			}
 			switch {
 			case parked && c < 55:
 				r.releaseAny(rng)
@@ -427,9 +465,28 @@ func randomScript(maxActs int) func(r *runner, rng *emit.Rand) {
 				if h == nil {
 					continue
 				}
+				if r.trust != 0 && rng.Chance(40) {
+					r.cancelAt = 1 + rng.Intn(3) // the validation context ends between two bifurcation rounds
+				}
 				r.deliver(h, kind)
 			default:
 				if r.learnerParked() {
+					continue
+				}
+				if r.f.Getter.HeadParked() {
+					continue
+				}
+				if rng.Chance(45) {
+					// slow network head request: what it answers is compared with the head captured before
+					l := r.local()
+					switch rng.Intn(3) {
+					case 0: // a sibling of the true next header (valid on its own against the captured head)
+						r.headLearnParked(&vhdr.Header{Chain: "a", H: l.Height() + 1, T: l.T + 1, Prev: l.Hash(), Nonce: 1 + rng.U64()%1000}, "fork")
+					case 1:
+						r.headLearnParked(r.f.At(l.Height()+1), "next")
+					default:
+						r.headLearnParked(r.f.At(l.Height()+2+uint64(rng.Intn(6))), "skip")
+					}
 					continue
 				}
 				switch rng.Intn(4) {
@@ -458,7 +515,7 @@ func TestC03(t *testing.T) {
 	w.PerShard(30)
 	w.Rule = "scripts over a real Syncer+Store in virtual time, generated adaptively at each quiescence: gossip of true next/skipping heads and of " +
 		"forged (bad link), far-forged, forked, wrong-chain, future-dated, time-unordered, stale and duplicate headers; Head()-learned heads; " +
-		"range answers = honest prefix / error / empty / shifted / over-long / sparse / starting below; trust range unlimited or small (soft failures, " +
+		"Head() calls whose network head request is answered late (after further gossip); validation contexts ending between two bifurcation rounds; range answers = honest prefix / error / empty / shifted / over-long / sparse / starting below; trust range unlimited or small (soft failures, " +
 		"bifurcation with and without getter gaps); Store.Append gated (the sync loop or the verifier call parked inside syncStore.Append, released in " +
 		"driver-chosen order) or not; every script ends by releasing all gates and draining; non-trivial when at least 4 actions"
 	nRandom := 90
@@ -526,6 +583,45 @@ func TestC03(t *testing.T) {
 			r.finish(rng)
 			r.deliver(r.gossipOf("next", rng), "next")
 			r.deliver(r.gossipOf("skip", rng), "skip")
+		}},
+		{"slow_head_answer_after_gossip", false, 0, func(r *runner, rng *emit.Rand) {
+			// Head() asks the network with subjective head N-1; gossip brings N meanwhile; the late answer is
+			// another header of height N (valid against N-1 on its own)
+			l := r.local()
+			r.headLearnParked(&vhdr.Header{Chain: "a", H: l.Height() + 1, T: l.T + 1, Prev: l.Hash(), Nonce: 1 + rng.U64()%1000}, "fork")
+			r.deliver(r.f.At(l.Height()+1), "next")
+			r.releaseHead()
+			r.deliver(r.gossipOf("next", rng), "next")
+			// and the same with the true header as the late answer, two heights on
+			l = r.local()
+			r.headLearnParked(r.f.At(l.Height()+2), "skip")
+			r.deliver(r.f.At(l.Height()+1), "next")
+			r.deliver(r.f.At(l.Height()+2), "next")
+			r.releaseHead()
+		}},
+		{"slow_head_answer_below_head", false, 0, func(r *runner, rng *emit.Rand) {
+			// as above, but gossip has moved the store two heights on when the answer arrives: below the head the
+			// shim passes everything through
+			l := r.local()
+			r.headLearnParked(&vhdr.Header{Chain: "a", H: l.Height() + 1, T: l.T + 1, Prev: l.Hash(), Nonce: 1 + rng.U64()%1000}, "fork")
+			r.deliver(r.f.At(l.Height()+1), "next")
+			r.deliver(r.f.At(l.Height()+2), "next")
+			r.releaseHead()
+			r.deliver(r.gossipOf("next", rng), "next")
+		}},
+		{"bifurcation_context_ends", false, 8, func(r *runner, rng *emit.Rand) {
+			// the validation context of the gossip message ends between two bifurcation rounds
+			for _, k := range []int{1, 2, 3} {
+				r.cancelAt = k
+				l := r.local()
+				r.deliver(&vhdr.Header{Chain: "a", H: l.Height() + 30 + uint64(rng.Intn(20)), T: l.T + 1, Prev: []byte("whatever"), Nonce: rng.U64()}, "forged_far")
+			}
+			r.cancelAt = 1
+			r.deliver(r.f.At(r.local().Height()+40), "farskip")
+			r.finish(rng)
+			r.cancelAt = 2
+			r.deliver(r.f.At(r.local().Height()+40), "farskip")
+			r.finish(rng)
 		}},
 		{"head_learned_fork", true, 0, func(r *runner, rng *emit.Rand) {
 			r.headLearn(r.f.At(r.local().Height() + 9))
